@@ -4,7 +4,7 @@ import os
 import subprocess
 
 from checks.c01 import load_corpus
-from gen.progs import gen_program
+from gen.progs import gen_builtin_program, gen_layout_program, gen_program
 from gen.rng import Rng
 from lib import opstable
 from lib.e2e import run_pipeline, same_behaviour
@@ -80,8 +80,13 @@ def run(tier, seed, replay=None):
         n = 120 if tier == 'quick' else 2500
         rng = Rng(seed ^ 0xC04)
         for i in range(n):
-            progs.append(gen_program(rng.fork(), {'big': False, 'vec_small': True, 'min_struct_fields': 2, 'nfun': 4 + i % 3,
-                                                  'depth': 2 + i % 3}))
+            if i % 10 == 3:
+                progs.append(gen_builtin_program(rng.fork()))        # the runtime libraries of both back ends
+            elif i % 10 == 7:
+                progs.append(gen_layout_program(rng.fork(), single_field=False))    # enum representations (TS reads tags, wasm tests types)
+            else:
+                progs.append(gen_program(rng.fork(), {'big': False, 'vec_small': True, 'min_struct_fields': 2, 'nfun': 4 + i % 3,
+                                                      'depth': 2 + i % 3}))
     ck.rule = ('generated accepted programs with division/remainder operands of every sign combination, string constants (ASCII), Vec '
                'elements below 2^30, structs with >= 2 fields (generators stay out of the four open classes, which are replayed from '
                'corpus/C04); distinct = distinct program text; non-trivial = both back ends ran and the run is not excluded')
